@@ -120,6 +120,16 @@ var urlPool = map[string]bool{
 	"1http://example.com":            false, // scheme must start with a letter
 	"://example.com":                 false,
 	"http://":                        false,
+	// an authority is present although it names no host (port only, user only, empty brackets); a fragment or query right after the host
+	"http://:8080":                true,
+	"https://:443/health?x=1":     true,
+	"http://user@:9/":             true,
+	"http://[]/x":                 true,
+	"https://example.com#pricing": true,
+	"http://u:p@h:80#x":           true,
+	"https://example.com?q=1":     true,
+	"http://-leading.example/":    true,
+	"http://.dot.example":         true,
 }
 
 func URLPoolKeys() []string {
